@@ -380,6 +380,61 @@ fn nested_too_deep(line: &str) -> bool {
     false
 }
 
+/// Reports the end of a line source however parse_iter is left (verification hooks only)
+#[cfg(feature = "verif")]
+struct ReportEnd;
+
+#[cfg(feature = "verif")]
+impl Drop for ReportEnd {
+    fn drop(&mut self) {
+        crate::verif::emit("\"ev\":\"rend\"".to_string());
+    }
+}
+
+/// Reports a line as passed over when the iteration of the skipping loop that looked at it ends,
+/// unless the line is handed back to be assembled (verification hooks only)
+#[cfg(feature = "verif")]
+struct ReportSkipped<'a> {
+    line_num: usize,
+    line: &'a str,
+    handed_back: &'a std::cell::Cell<bool>,
+}
+
+#[cfg(feature = "verif")]
+impl<'a> Drop for ReportSkipped<'a> {
+    fn drop(&mut self) {
+        if !self.handed_back.get() {
+            crate::verif::emit(format!(
+                "\"ev\":\"sline\",\"ln\":{},\"cls\":\"{}\"",
+                self.line_num,
+                line_class(self.line)
+            ));
+        }
+    }
+}
+
+/// What kind of line this is, as far as the reader's bookkeeping goes (verification hooks only)
+#[cfg(feature = "verif")]
+fn line_class(line: &str) -> &'static str {
+    if nested_too_deep(line) {
+        return "other";
+    }
+    match document::line(line) {
+        Ok(Document::DirectiveLine(_, directive, _)) => match directive {
+            Directive::If => "if",
+            Directive::IfDef => "ifdef",
+            Directive::IfNDef => "ifndef",
+            Directive::ElIf => "elif",
+            Directive::Else => "else",
+            Directive::Endif => "endif",
+            Directive::Macro => "macro",
+            Directive::EndM | Directive::EndMacro => "endm",
+            _ => "other",
+        },
+        _ => "other",
+    }
+}
+
 fn skip<'a>(
     iter: &mut dyn Iterator<Item = (usize, &'a str)>,
     context: &ParseContext,
@@ -397,6 +452,12 @@ fn skip<'a>(
                 let name = context.macros.name.borrow().clone();
                 let mut items = vec![];
                 while let Some((line_num, line)) = iter.next() {
+                    #[cfg(feature = "verif")]
+                    crate::verif::emit(format!(
+                        "\"ev\":\"mline\",\"ln\":{},\"cls\":\"{}\"",
+                        line_num + 1,
+                        line_class(line)
+                    ));
                     if nested_too_deep(line) {
                         items.push((CodePoint { line_num, num: 3 }, line.to_string()));
                         continue;
@@ -416,6 +477,14 @@ fn skip<'a>(
                 context.macros.macroses.borrow_mut().insert(name, items);
             } else {
                 while let Some((num, line)) = iter.next() {
+                    #[cfg(feature = "verif")]
+                    let handed_back = std::cell::Cell::new(false);
+                    #[cfg(feature = "verif")]
+                    let _report = ReportSkipped {
+                        line_num: num + 1,
+                        line,
+                        handed_back: &handed_back,
+                    };
                     if nested_too_deep(line) {
                         continue;
                     }
@@ -439,6 +508,8 @@ fn skip<'a>(
                                         }
                                         ret = if directive == Directive::ElIf {
                                             *pending_elif = true;
+                                            #[cfg(feature = "verif")]
+                                            handed_back.set(true);
                                             Some((num, line))
                                         } else {
                                             iter.next()
@@ -474,6 +545,11 @@ pub fn parse_iter<'a>(
 
     // the line got from skip() is an .elif whose condition decides, no branch was assembled before it
     let mut pending_elif = false;
+
+    #[cfg(feature = "verif")]
+    crate::verif::emit("\"ev\":\"rbegin\"".to_string());
+    #[cfg(feature = "verif")]
+    let _end = ReportEnd;
 
     loop {
         if let Some((line_num, line)) = skip(iter, context, next_item, &mut pending_elif) {
@@ -515,6 +591,13 @@ pub fn parse_iter<'a>(
                                 ));
                             }
                         }
+                        #[cfg(feature = "verif")]
+                        let evaluated = !(d == Directive::ElIf && !pending_elif);
+                        #[cfg(feature = "verif")]
+                        let conditional = d == Directive::If
+                            || d == Directive::IfDef
+                            || d == Directive::IfNDef
+                            || d == Directive::ElIf;
                         if d == Directive::ElIf && !pending_elif {
                             // a branch before this .elif was assembled, the rest of the block is skipped
                             next_item = NextItem::EndIfAll;
@@ -523,9 +606,31 @@ pub fn parse_iter<'a>(
                                 d.parse(&d_op_args, &context, CodePoint { line_num, num: 2 })?;
                             next_item = item;
                         }
+                        #[cfg(feature = "verif")]
+                        if line_class(line) != "other" {
+                        crate::verif::emit(format!(
+                            "\"ev\":\"rline\",\"ln\":{},\"cls\":\"{}\",\"taken\":{}",
+                            line_num,
+                            line_class(line),
+                            if !conditional || !evaluated {
+                                -1
+                            } else if next_item == NextItem::NewLine {
+                                1
+                            } else {
+                                0
+                            }
+                        ));
+                        }
                     }
                     Document::EmptyLine => {}
                     _ => {}
+                }
+                #[cfg(feature = "verif")]
+                if line_class(line) == "other" {
+                    crate::verif::emit(format!(
+                        "\"ev\":\"rline\",\"ln\":{},\"cls\":\"other\",\"taken\":-1",
+                        line_num
+                    ));
                 }
             } else {
                 bail!(
